@@ -248,3 +248,22 @@ class Check:
             for w in self.inconclusive[:5]: print('INCONCLUSIVE:', w)
             return 2
         return 0
+
+
+def prune_build_cache(max_age_hours=6.0, max_free_check_gb=30.0):
+    """the build cache has no other eviction: drop entries that were not used for a while when the disk gets tight (a soak over many seeds
+    otherwise fills the disk; entries in use are at most minutes old)"""
+    import shutil, time
+    try:
+        st = os.statvfs(WORK)
+        if st.f_bavail * st.f_frsize / 1e9 > max_free_check_gb: return
+        root = os.path.join(WORK, 'build'); now = time.time()
+        for sub in os.scandir(root):
+            if not sub.is_dir(): continue
+            for e in os.scandir(sub.path):
+                try:
+                    if now - e.stat().st_mtime > max_age_hours * 3600:
+                        shutil.rmtree(e.path, ignore_errors=True) if e.is_dir() else os.unlink(e.path)
+                except OSError: pass
+    except OSError:
+        pass
